@@ -354,7 +354,7 @@ namespace Pistache
 
             std::ostream os(&stream.buf_);
             os << std::hex << size(val) << crlf;
-            os << val << crlf;
+            os << std::dec << val << crlf;
 
             return stream;
         }
